@@ -186,6 +186,52 @@ def two_streams_case(args):
         sc.close()
 
 
+def modifier_stream_case(args):
+    """a streaming out-port (and the consumer's in-port) written with path modifiers in the command pattern -- `{os:o|%.dat}`,
+    `{i:a|%.dat}`: they apply to the pipe's path, which ends in .fifo, so a `%` suffix that names the data file's extension
+    takes nothing away; producer and consumer meet on the pipe the process created: bytes arrive, nothing is left"""
+    seed, i = args
+    rng = random.Random(seed * 236887739 + i)
+    n = rng.randint(1, 3)
+    sp = t3.Spec(maxtasks=2 * n + rng.randint(0, 2), bufsize=rng.choice([1, 128]))
+    paths = []
+    for j in range(n):
+        p = "ms%d.dat" % j
+        sp.files[p] = ("payload %d " % j) * rng.choice([1, 200, 9000])
+        paths.append(p)
+    s = sp.src("src", paths)
+    pm = rng.choice(["|%.dat", "|%.st.dat", "|%.fifo.x", ""])
+    cm = rng.choice(["|%.dat", ""])
+    prod = sp.proc(t3.RawProc("prod", "cat {i:a} > {os:o%s}" % pm, ins=[("a", [(s, "out")])], outs=[("o", "{i:a|%.dat}.st.dat")], stream_outs=["o"]))
+    sp.proc(t3.RawProc("cons", "cat {i:a%s} > {o:o}" % cm, ins=[("a", [(prod, "o")])], outs=[("o", "{i:a|basename}.cons")]))
+    sc = t3.Scratch()
+    try:
+        sc.plant(sp.files)
+        impl = t3.run_impl(sc, sp, timeout=30)
+        problems = []
+        if impl["timed_out"] or "all goroutines are asleep" in impl["stderr"]:
+            problems.append(("hang", "producer `cat {i:a} > {os:o%s}`, consumer `cat {i:a%s} > {o:o}`: the run does not terminate" % (pm, cm)))
+        elif impl["rc"] != 0 or not impl["returned"]:
+            problems.append(("unexpected-failure", "producer `{os:o%s}`, consumer `{i:a%s}`: exit %s: %s" % (pm, cm, impl["rc"], impl["stderr"][-200:])))
+        else:
+            files = t3.data_files(impl["fs"])
+            for p in paths:
+                got = files.get(p[:-4] + ".st.dat.cons")
+                if got != sp.files[p]:
+                    problems.append(("stream-bytes", "the consumer of %s.st.dat received %s bytes, the producer wrote %d" % (p[:-4], None if got is None else len(got), len(sp.files[p]))))
+                    break
+        lo = [q for q in impl["fs"] if q.endswith(".fifo") or ".fifo" in os.path.basename(q) or os.path.basename(q).startswith("_scipipe_tmp")]
+        if lo and not problems:
+            problems.append(("leftovers", "left after the run: %s" % sorted(lo)[:3]))
+        st = [q for q in impl["fs"] if q.endswith(".st.dat") or q.endswith(".st")]
+        if st and not problems:
+            problems.append(("stream-left-trace", "something exists at / near the streaming output path: %s" % st[:2]))
+        return {"spec": sp.text(with_files=False), "bufsize": sp.bufsize, "problems": problems[:3], "known": [], "ntasks": 2 * n, "rc": impl["rc"], "stderr": impl["stderr"][-300:],
+                "yield": None, "wall": impl["wall"], "sizes": [len(sp.files[p]) for p in paths], "chain": False}
+    finally:
+        sc.close()
+
+
 def run(rep, tier, seed):
     proved = vlib.prove(rep, MODULE, THEOREMS)
     ok, msg = vlib.build_ocaml()
@@ -194,6 +240,7 @@ def run(rep, tier, seed):
     n = 36 if tier == "quick" else 600
     results = t3.run_many(case, [(seed, i) for i in range(n)])
     results += t3.run_many(two_streams_case, [(seed, i) for i in range(n // 4)])
+    results += t3.run_many(modifier_stream_case, [(seed, i) for i in range(n // 6)])
     results += t3.run_many(runto_branch_case, [(seed, i) for i in range(n // 4)])
     kf = vlib.known_findings("C17")
     nk = 0
